@@ -339,6 +339,23 @@ def skeletons(fx, rep, rule, name, sy, res):
     """for every Ok path: (events, record term, positions). events include failed optional attempts."""
     out = []
     problems = []
+
+    def as_prefix_step(t):
+        """`cur.strip_prefix(LIT)` used directly is the literal combinator without its error value (`parse_prefix` is checked to be
+        `Ok(rest)` iff `strip_prefix` is `Some(rest)`, C05.6): same step, same rest"""
+        if t[0] == "call" and t[1] == "core::slice::strip_prefix" and len(t[2]) == 2 and lit_bytes(t[2][1]) is not None:
+            return ("call", rp("parse_prefix"), t[2]) + tuple(t[3:])
+        if t[0] == "payload" and t[2] == "Some" and t[1][0] == "call" and t[1][1] == rp("parse_prefix"):
+            return ("payload", t[1], "Ok") + tuple(t[3:])
+        if t[0] == "is" and t[2] == "Some" and t[1][0] == "call" and t[1][1] == rp("parse_prefix"):
+            return ("is", t[1], "Ok")
+        return None
+    res2 = []
+    for st, (k, v) in res:
+        st = st.copy()
+        st.conds = tuple((fc.rewrite(a, as_prefix_step), pol) for a, pol in st.conds)
+        res2.append((st, (k, fc.rewrite(v, as_prefix_step))))
+    res = res2
     for st, (k, v) in res:
         if not (v[0] == "adt" and v[2] == "Ok"):
             continue
